@@ -73,6 +73,12 @@ def s_parse_random(rng):
 def triples_string(rng):
     g = gen.decode_graph(rng) or Graph([('a', ':instance', 'b')])
     ts = [t for t in g.triples]
+    if maybe(rng, 0.04):
+        # a long conjunction (hundreds of tokens)
+        for _ in range(rng.randint(3, 12)):
+            h = gen.decode_graph(rng)
+            if h is not None:
+                ts += list(h.triples)
     if maybe(rng, 0.15):
         ts = [(s, rng.choice([':^up', ':^', ':a^b', r]), t) for s, r, t in ts]
     if maybe(rng, 0.5):
@@ -107,7 +113,10 @@ def s_format(rng):
     t = gen.gen_tree(rng, wf=maybe(rng, 0.7))
     if maybe(rng, 0.1):
         t = rng.choice([(None, []), ('', []), ('a', []), ('a', [('ARG0', 'b'), ('/', None), (':r', '')]),
-                        ('a', [('/', 'x'), (':q', 0), (':r', 0.0), (':s', -2), (':t', ('b', [(':u', 1.5)]))])])
+                        ('a', [('/', 'x'), (':q', 0), (':r', 0.0), (':s', -2), (':t', ('b', [(':u', 1.5)]))]),
+                        # the same role with constants that are == but print differently, across calls
+                        ('a', [(':v', 1)]), ('a', [(':v', 1.0)]), ('a', [(':v', 0)]), ('a', [(':v', -0.0)]),
+                        ('a', [(':v', 0.0)]), ('a', [('/', 2)]), ('a', [('/', 2.0)])])
     tree = Tree(t, metadata=gen.gen_metadata(rng) if maybe(rng, 0.3) else {})
     op = {'op': 'format', 'tree': j_tree(tree), 'indent': rng.choice([None, -1, -1, 0, 1, 2, 3, 4, 7]),
           'compact': maybe(rng, 0.4)}
@@ -176,7 +185,7 @@ def s_reset_variables(rng):
         # an index-free format makes the real loop spin forever on a collision (boundary O5):
         # only single-node trees are sent to the real code
         t = (t[0], [b for b in t[1] if not isinstance(b[1], tuple)])
-    return {'op': 'reset_variables', 'tree': j_tree(Tree(t)), 'fmt': fmt}
+    return {'op': 'reset_variables', 'tree': j_tree(Tree(t)), 'fmt': fmt, 'listNodes': maybe(rng, 0.15)}
 
 
 def s_diagnostics(rng):
@@ -289,7 +298,8 @@ def s_graph_new(rng):
     ts = [(s, r.lstrip(':') if maybe(rng, 0.2) else r, t) for s, r, t in g.triples]
     return {'op': 'graph_new', 'triples': [j_triple(t) for t in ts],
             'top': rng.choice([None, None, 'a', 'zz'] + sorted(g.variables())),
-            'epidata': j_graph(g)['epidata'], 'metadata': [[k, v] for k, v in g.metadata.items()]}
+            'epidata': j_graph(g)['epidata'], 'metadata': [[k, v] for k, v in g.metadata.items()],
+            'listTriples': maybe(rng, 0.25)}
 
 
 def s_graph_filter(rng):
@@ -397,7 +407,7 @@ def gen_opts(rng):
 
 
 def gen_stream_text(rng, ngraphs=None, wf=True):
-    n = ngraphs if ngraphs is not None else rng.choice([0, 1, 1, 2, 3])
+    n = ngraphs if ngraphs is not None else rng.choice([0, 1, 1, 2, 3] if rng.random() > 0.03 else [25, 40])
     parts = []
     for _ in range(n):
         t = gen.gen_tree(rng, wf=wf)
